@@ -8,6 +8,7 @@ var All = []*ev.Property{
 	C01,
 	C02,
 	C03,
+	C04,
 	C08,
 	C11,
 	C14,
